@@ -1288,6 +1288,31 @@ func runCase(c Case) (out Out) {
 	return out
 }
 
+// A case that does not return (a lock never released, a wait never satisfied) must not take the
+// whole run with it: it is abandoned after a while - its goroutine stays parked - and reported
+// as that case's error.  The first such case is given 45 s (the forced-schedule kinds have
+// internal timeouts of 20 s), later ones 8 s; after three, the remaining cases are not run.
+var hung int
+
+func runCaseGuarded(c Case) Out {
+	if hung >= 3 {
+		return Out{ID: c.ID, Obs: []any{}, Err: "not run: three earlier cases did not return"}
+	}
+	limit := 45 * time.Second
+	if hung > 0 {
+		limit = 8 * time.Second
+	}
+	ch := make(chan Out, 1)
+	go func() { ch <- runCase(c) }()
+	select {
+	case o := <-ch:
+		return o
+	case <-time.After(limit):
+		hung++
+		return Out{ID: c.ID, Obs: []any{}, Err: "the case did not return (deadlock?)"}
+	}
+}
+
 func main() {
 	logx.Disable()
 	cases := readCases()
@@ -1323,12 +1348,12 @@ func main() {
 	polls := func(k string) bool { return k == "cachew" || k == "cache_take2" }
 	for i, c := range cases {
 		if polls(c.Kind) {
-			res[i] = runCase(c)
+			res[i] = runCaseGuarded(c)
 		}
 	}
 	for i, c := range cases {
 		if c.Kind != "cache_rt" && !polls(c.Kind) {
-			res[i] = runCase(c)
+			res[i] = runCaseGuarded(c)
 		}
 	}
 	wg.Wait()
